@@ -26,8 +26,9 @@ class Disabled(Exception):
 class Driver:
     Disabled = Disabled
 
-    def __init__(self, max_dev=1):
+    def __init__(self, max_dev=1, seed_ids=(0, 1)):
         self.max_dev = max_dev
+        self.seed_ids = tuple(seed_ids)
 
     # ------------------------------------------------------------------ world
     def new_world(self):
@@ -56,7 +57,8 @@ class Driver:
             pass
 
     def seeds(self):
-        return [[]]
+        S = [[], [("tuple",), ("V_tup", 0), ("V_tup", 0), ("V_tup", 0)]]
+        return [S[i] for i in self.seed_ids]
 
     def snapshot(self, world):
         out = []
@@ -106,7 +108,7 @@ class Driver:
             for i in tups:
                 ev.append(("V_tup", i))
             for i in vecs:
-                ev += [("copy", i), ("slice", i), ("sliceall", i), ("add1", i)]
+                ev += [("copy", i), ("slice", i), ("sliceall", i), ("add1", i), ("lshift_empty", i), ("rlshift_empty", i)]
         if not tabs:
             ev.append(("T_dict",))
             for i in plain:
@@ -223,9 +225,20 @@ class Driver:
             if op == "V_tup":
                 t = sl[ev[1]]
                 return new_vec(Vector(t.obj), storage=t.token)
-            if op in ("copy", "slice", "sliceall", "add1"):
+            if op in ("copy", "slice", "sliceall", "add1", "lshift_empty", "rlshift_empty"):
                 x = sl[ev[1]].obj
-                r = x.copy() if op == "copy" else (x[0:1] if op == "slice" else (x[:] if op == "sliceall" else x + 1))
+                if op == "copy":
+                    r = x.copy()
+                elif op == "slice":
+                    r = x[0:1]
+                elif op == "sliceall":
+                    r = x[:]
+                elif op == "add1":
+                    r = x + 1
+                elif op == "lshift_empty":
+                    r = x << []          # concatenation with nothing: an operation result, its own vector
+                else:
+                    r = [] << x
                 return new_any(r)
             if op == "T_dict":
                 k = world.fresh()
@@ -371,10 +384,14 @@ def _py(hist):
 def check(ctx):
     agg = Agg()
     depth = ctx.pick(6, 7)
+    depth_b = ctx.pick(5, 6)
     dev = ctx.pick(1, 2)
-    drv = Driver(max_dev=dev)
-    explorer.bfs(drv, depth, agg)
-    agg.notes["bound"] = f"histories <= {depth} events, <= {dev} identity-reuse deviation(s)"
+    explorer.bfs(Driver(max_dev=dev, seed_ids=(0,)), depth, agg)
+    sizes_a = agg.notes.get("frontier_sizes")
+    explorer.bfs(Driver(max_dev=dev, seed_ids=(1,)), depth_b, agg)
+    agg.notes["frontier_sizes"] = {"empty-world": sizes_a, "three-sharers": agg.notes.get("frontier_sizes")}
+    agg.notes["bound"] = (f"histories <= {depth} events from the empty world and <= {depth_b} events from the world with three vectors over one "
+                          f"caller tuple, <= {dev} identity-reuse deviation(s)")
     agg.notes["deviation_bound"] = dev
     agg.sample({"events": ["tuple", "V_tup", "V_list", "copy", "T_dict", "t_setattr_list", "w_int", "drop", "collect", "...+alloc choices"]})
     return agg
